@@ -81,16 +81,18 @@ Theorem C13_stop : ∀ ops ts, no_stop ops →
 Proof. exact c13_stop. Qed.
 Print Assumptions C13_stop.
 
-(* Stop arriving in the middle of an operation: a stat / wstat / read / write on fid f is inside
-   its file-system call and holds f's lock while Stop runs (Model/Session.v inflight_stop).
-   Once both have returned nothing is bound and every entry ever bound has been released,
-   once, and not used afterwards.  (For operations that go on to change the table after their
-   call - walk, open, create, attach - see design/C13.md: known finding.) *)
-Theorem C13_stop_inflight : ∀ s o ts f, reach s → op_simple_fid o = Some f →
+(* Stop arriving in the middle of an operation: operation o is inside a file-system call,
+   holding its fid's lock or the reservation of the fid it is about to bind, when Stop is called.
+   Stop takes every SFid's lock before looking at it, so it waits for the operation and then
+   releases whatever the operation has bound (Model/Session.v inflight_stop; that Stop does wait
+   is what the gated-file-system family of the harness observes).  Afterwards the table is empty,
+   every entry ever bound has been released, once, and not used afterwards; both return. *)
+Theorem C13_stop_inflight : ∀ s o ts, reach s → is_stop o = false →
   let s3 := (inflight_stop s o ts).2.1.1 in
-  NoDup (rel s3) ∧ (∀ f' e, ¬ B s3 f' e) ∧
+  NoDup (rel s3) ∧ (∀ f' e, ¬ B s3 f' e) ∧ refs s3 = ∅ ∧
   (∀ e, e ∈ bound_ever s3 → e ∈ rel s3) ∧ bad_use s3 = [] ∧
-  bound_ever s3 = bound_ever (sstep s o ts).1.1.
+  bound_ever s3 = bound_ever (sstep s o ts).1.1 ∧
+  (inflight_stop s o ts).2.1.2 = ROk 0 ∧ (inflight_stop s o ts).1.1.2 ≠ RHang.
 Proof. exact c13_stop_inflight. Qed.
 Print Assumptions C13_stop_inflight.
 
@@ -140,14 +142,11 @@ Example C13_ex_stop :
 Proof. vm_compute. reflexivity. Qed.
 
 Example C13_ex_stop_inflight :
-  let '((s2, _, cs2), (s3, r, cs)) := inflight_stop (after (take 4 ex13_ops)) (OStat 2) [] in
-  cs = [CStat 2] ∧ r = ROk 0 ∧ (CClunk 2) ∈ cs2 ∧ length cs2 = 4%nat
-  ∧ rel s3 ≡ₚ [0; 1; 2; 3] ∧ op_simple_fid (OStat 2) = Some 2.
-Proof.
-  vm_compute. split_and!; try done.
-  - repeat constructor.
-  - do 2 apply Permutation_skip. apply Permutation_swap.
-Qed.
+  let '((s1, r, cs), (s3, r3, cs3)) :=
+    inflight_stop (after (take 4 ex13_ops)) (OWalk 0 100 [[97]]) [Tok 0 true 1] in
+  cs = [CWalk 0 1] ∧ r = ROk 1 ∧ r3 = ROk 0 ∧ length cs3 = 5%nat ∧ (CClunk 4) ∈ cs3
+  ∧ map_to_list (refs s3) = [] ∧ bound_ever s3 = [4; 3; 2; 1; 0] ∧ is_stop (OWalk 0 100 [[97]]) = false.
+Proof. vm_compute. split_and!; try done. repeat constructor. Qed.
 
 (* the in-place walk of an open directory fid no longer keeps the replaced entry's Readdir *)
 Example C13_ex_inplace_walk_drops_file :
